@@ -30,11 +30,11 @@ func CheckDataRefs(reg template.Registry) (err error) {
 		tc := newTemplateChecker(reg, t)
 		tc.checkTemplate(t.Node)
 
-		// check that all params appear in the usedKeys
+		// check that all params have been used
 		var unusedParamNames []string
 		for _, param := range tc.params {
-			if !contains(tc.usedKeys, param) {
-				unusedParamNames = append(unusedParamNames, param)
+			if !param.used {
+				unusedParamNames = append(unusedParamNames, param.name)
 			}
 		}
 		if len(unusedParamNames) > 0 {
@@ -44,34 +44,56 @@ func CheckDataRefs(reg template.Registry) (err error) {
 	return nil
 }
 
+// binding is a name that data references may resolve to: a template param, a
+// {let} variable or a loop variable.
+type binding struct {
+	name  string
+	isLet bool
+	used  bool
+}
+
 type templateChecker struct {
 	registry template.Registry
-	params   []string
-	letVars  []string
-	forVars  []string
-	usedKeys []string
+	params   []*binding // the template's declared params
+	scope    []*binding // every binding visible at this point, innermost last
 }
 
 func newTemplateChecker(reg template.Registry, tpl template.Template) *templateChecker {
-	var paramNames []string
+	var tc = &templateChecker{registry: reg}
 	for _, param := range tpl.Doc.Params {
-		paramNames = append(paramNames, param.Name)
+		tc.params = append(tc.params, &binding{name: param.Name})
 	}
-	return &templateChecker{reg, paramNames, nil, nil, nil}
+	tc.scope = append(tc.scope, tc.params...)
+	return tc
 }
 
 func (tc *templateChecker) checkTemplate(node ast.Node) {
 	switch node := node.(type) {
 	case *ast.LetValueNode:
+		// the variable is visible after the tag, not in its own definition.
 		tc.checkLet(node.Name)
-		tc.letVars = append(tc.letVars, node.Name)
+		tc.recurse(node)
+		tc.scope = append(tc.scope, &binding{name: node.Name, isLet: true})
+		return
 	case *ast.LetContentNode:
 		tc.checkLet(node.Name)
-		tc.letVars = append(tc.letVars, node.Name)
+		tc.recurse(node)
+		tc.scope = append(tc.scope, &binding{name: node.Name, isLet: true})
+		return
 	case *ast.CallNode:
 		tc.checkCall(node)
 	case *ast.ForNode:
-		tc.forVars = append(tc.forVars, node.Var)
+		// the loop variable is visible in the loop body only: not in the list
+		// expression, not in {ifempty} and not after the loop.
+		tc.checkTemplate(node.List)
+		var outer = len(tc.scope)
+		tc.scope = append(tc.scope, &binding{name: node.Var})
+		tc.checkTemplate(node.Body)
+		tc.scope = tc.scope[:outer]
+		if node.IfEmpty != nil {
+			tc.checkTemplate(node.IfEmpty)
+		}
+		return
 	case *ast.DataRefNode:
 		tc.visitKey(node.Key)
 	case *ast.HeaderParamNode:
@@ -110,9 +132,9 @@ func (tc *templateChecker) checkCall(node *ast.CallNode) {
 	var callerParamNames []string
 	if node.AllData {
 		for _, param := range tc.params {
-			if contains(allCalleeParamNames, param) {
-				tc.usedKeys = append(tc.usedKeys, param)
-				callerParamNames = append(callerParamNames, param)
+			if contains(allCalleeParamNames, param.name) {
+				param.used = true
+				callerParamNames = append(callerParamNames, param.name)
 			}
 		}
 	}
@@ -157,78 +179,44 @@ func (tc *templateChecker) checkCall(node *ast.CallNode) {
 }
 
 func (tc *templateChecker) recurse(parent ast.ParentNode) {
-	var initialForVars = len(tc.forVars)
-	var initialLetVars = len(tc.letVars)
-	var initialUsedKeys = len(tc.usedKeys)
+	var outer = len(tc.scope)
 	for _, child := range parent.Children() {
-		tc.checkTemplate(child)
-	}
-	tc.forVars = tc.forVars[:initialForVars]
-
-	// quick return if there were no {let}s
-	if initialLetVars == len(tc.letVars) {
-		return
-	}
-
-	// "pop" the {let} variables, as well as their usages.
-	// (this is necessary to handle shadowing of @params by {let} vars)
-	var letVarsGoingOutOfScope = tc.letVars[initialLetVars:]
-	var usedKeysToKeep, usedLets []string
-	for _, key := range tc.usedKeys[initialUsedKeys:] {
-		if contains(letVarsGoingOutOfScope, key) {
-			usedLets = append(usedLets, key)
-		} else {
-			usedKeysToKeep = append(usedKeysToKeep, key)
+		if child != nil {
+			tc.checkTemplate(child)
 		}
 	}
 
-	// check that any let variables leaving scope have been used
+	// the {let} variables defined in this block go out of scope here.
+	// check that they have been used.
 	var unusedLetVarNames []string
-	for _, letVar := range letVarsGoingOutOfScope {
-		if !contains(usedLets, letVar) {
-			unusedLetVarNames = append(unusedLetVarNames, letVar)
+	for _, b := range tc.scope[outer:] {
+		if b.isLet && !b.used {
+			unusedLetVarNames = append(unusedLetVarNames, b.name)
 		}
 	}
 	if len(unusedLetVarNames) > 0 {
 		panic(fmt.Errorf("{let} variables %q are not used.", unusedLetVarNames))
 	}
-
-	tc.usedKeys = append(tc.usedKeys[:initialUsedKeys], usedKeysToKeep...)
-	tc.letVars = tc.letVars[:initialLetVars]
+	tc.scope = tc.scope[:outer]
 }
 
+// visitKey records a use of the innermost binding of the given key, and checks
+// that there is one.
 func (tc *templateChecker) visitKey(key string) {
-	// record that this key was used in the template.
-	tc.usedKeys = append(tc.usedKeys, key)
-
-	// check that the key was provided by a @param or {let}
-	if !tc.checkKey(key) {
-		panic(fmt.Errorf("data ref %q not found. params: %v, let variables: %v",
-			key, tc.params, tc.letVars))
-	}
-}
-
-// checkKey returns true if the given key exists as a param or {let} variable.
-func (tc *templateChecker) checkKey(key string) bool {
 	if key == "ij" {
-		return true
+		return
 	}
-	for _, param := range tc.params {
-		if param == key {
-			return true
+	for i := len(tc.scope) - 1; i >= 0; i-- {
+		if tc.scope[i].name == key {
+			tc.scope[i].used = true
+			return
 		}
 	}
-	for _, varName := range tc.letVars {
-		if varName == key {
-			return true
-		}
+	var names []string
+	for _, b := range tc.scope {
+		names = append(names, b.name)
 	}
-	for _, varName := range tc.forVars {
-		if varName == key {
-			return true
-		}
-	}
-	return false
+	panic(fmt.Errorf("data ref %q not found. params and variables in scope: %v", key, names))
 }
 
 func contains(slice []string, item string) bool {
